@@ -33,7 +33,7 @@ V2 == SetVal(V, T.mod.n, T.mod.v)
 BitsOnlyIllTyped ==
     \A i \in 1..Len(T.prog[T.root].fields) :
         LET f == T.prog[T.root].fields[i] IN
-        f.k = "Bits" \/ f.k \in {"Em", "Move"} \/ WellTyped(T.prog, f, Lookup(V, f.name))
+        f.k = "Bits" \/ f.k \in {"Em", "Move", "Emb"} \/ WellTyped(T.prog, f, Lookup(V, f.name))
 
 Failed ==
     \* C19: the constructed packet holds the declared defaults, overridden exactly where K names a field
